@@ -58,7 +58,7 @@ Proof. intros. eapply index_guard; eauto. Qed.
 Theorem C04_ref_address : forall all c n target acc addr ao rv rep r,
   find_object all target = Some (ORegister r) ->
   method_of all (ORef c n (OvRegister target acc addr ao rv rep)) =
-    Some {| m_name := lower_str n;
+    Some {| m_name := meth_name n;
             m_kind := KReg (match acc with Some a => a | None => rg_access r end);
             m_addr := match addr with Some a => a | None => rg_address r end;
             m_rep := match rep with Some x => Some x | None => rg_repeat r end |}.
